@@ -260,22 +260,51 @@ def _stream_list_model(ctx):
             if got != want:
                 ctx.violation(case, "a member of an address list differs from the cell evaluated alone",
                               impl=got, expected=want)
+            # C05_permutation / C05_same_members on the implementation: a second compiler, same history, the
+            # members shuffled (and one of them repeated) - same value per address and the same final cell map
+            snap = wbgen.snapshot(c, wb)
+            other = list(members) + [rng.choice(members)]
+            rng.shuffle(other)
+            c2 = ExcelCompiler(excel=wb.to_openpyxl())
+            try:
+                for i in prefix:
+                    c2.evaluate(wb.nodes[i]['addr'])
+                val2 = c2.evaluate([wb.nodes[i]['addr'] for i in other])
+            except Exception as exc:      # noqa: BLE001
+                ctx.violation(dict(case, permuted=[wb.nodes[i]['addr'] for i in other]),
+                              f"evaluate(permuted list) raises {type(exc).__name__}: {exc}"[:200])
+                continue
+            got2 = {i: canon(v) for i, v in zip(other, val2)}
+            if any(got2[i] != refv[i] for i in other):
+                ctx.violation(dict(case, permuted=[wb.nodes[i]['addr'] for i in other]),
+                              "a member of a permuted address list differs from the cell evaluated alone",
+                              impl=[got2[i] for i in other], expected=[refv[i] for i in other])
+            snap2 = wbgen.snapshot(c2, wb)
+            if snap2 != snap:
+                ctx.violation(dict(case, permuted=[wb.nodes[i]['addr'] for i in other]),
+                              "the final cell map / cached values depend on the order of the address list",
+                              impl=snap2, expected=snap)
             calls.append(('evlist', [wb.wire(), [[0, i] for i in prefix], list(members)]))
-            meta.append((case, got))
+            meta.append((case, got, snap))
     if ctx.model and calls:
-        for (case, got), ans in zip(meta, ctx.model.batch(calls)):
+        for (case, got, snap), ans in zip(meta, ctx.model.batch(calls)):
             try:
                 mvals = [dec_val(m) for m in ans[0]]
+                msnap = {i: _canon_model(dec_val(x[1])) for i, x in enumerate(ans[1]) if x[0] == 1}
             except Exception:      # noqa: BLE001
                 ctx.divergence(case, got, ans, 'Model/C05List.v evaluate_list = ExcelCompiler.evaluate(list)')
                 continue
             if len(mvals) != len(got) or any(not same(a, b) for a, b in zip(mvals, got)):
                 ctx.divergence(case, got, mvals, 'Model/C05List.v evaluate_list = ExcelCompiler.evaluate(list)')
+            elif set(msnap) != set(snap) or any(not same(msnap[i], snap[i]) for i in snap):
+                ctx.divergence(case, snap, msnap,
+                               'Model/C05List.v final state of evaluate_list = ExcelCompiler.cell_map values')
     ctx.extra['rule'] += (
         "; list-model - the same DAG workbooks, a random history of 0-2 single evaluations, then evaluate on a "
         "list / tuple / generator of 1..2n addresses drawn with repetition in random order: result type kept, "
-        "every position = the cell evaluated alone, and the whole answer = Model/C05List.v evaluate_list on the "
-        "extracted machine (distinct = distinct (workbook, history, address sequence))")
+        "every position = the cell evaluated alone, the whole answer and the final cell map (built cells, cached "
+        "values) = Model/C05List.v evaluate_list on the extracted machine, and a second compiler given the "
+        "members shuffled with one more repetition ends with the same cell map and cached values (distinct = distinct (workbook, history, address sequence))")
 
 
 def _canon_model(v):
